@@ -93,6 +93,7 @@ inductive LexError where
   | DisallowedBidirectionalOverride (c : Char)
   | DiscouragedUnicodeCodepoint (c : Char)
   | DisallowedControlCode (c : Char)
+  | NestingTooDeep
 deriving DecidableEq, Repr, Inhabited
 
 /-! ### tables (from the generated file) -/
@@ -393,10 +394,21 @@ structure PState where
   /-- `self.0.source()` and its length in bytes -/
   src : Str
   srcLen : Nat
+  /-- `self.1`: number of `(`, `<`, `{` consumed and not yet closed -/
+  depth : Nat
 deriving Inhabited
 
 /-- `Lexer::new` after the screen -/
-def PState.init (src : Str) : PState := ⟨tokenize src, 0, 0, src, utf8Len src⟩
+def PState.init (src : Str) : PState := ⟨tokenize src, 0, 0, src, utf8Len src, 0⟩
+
+def isOpenBracket (t : Token) : Bool := t == .OpenParen || t == .OpenAngle || t == .OpenBrace
+def isCloseBracket (t : Token) : Bool := t == .CloseParen || t == .CloseAngle || t == .CloseBrace
+
+/-- is a nesting depth over `MAX_NESTING_DEPTH` (generated; no limit when the constant is absent) -/
+def tooDeep (d : Nat) : Bool :=
+  match Generated.maxNestingDepth with
+  | some limit => d > limit
+  | none => false
 
 /-- the character of `s` (starting at byte `pos`) whose bytes contain byte offset `b`:
 its offset and its length; `(pos, 0)` when there is none -/
@@ -419,11 +431,22 @@ def PState.peek (st : PState) : Option LTok := st.toks.head?
 /-- `Lexer::peek2` -/
 def PState.peek2 (st : PState) : Option LTok := (st.toks.drop 1).head?
 
-/-- `Iterator::next` -/
+/-- `Iterator::next`: the next item; an opening bracket beyond the nesting limit is turned into
+`Err(NestingTooDeep)` -/
 def PState.next (st : PState) : Option LTok × PState :=
   match st.toks with
   | [] => (none, { st with lastStart := st.srcLen, lastEnd := st.srcLen })
-  | t :: r => (some t, { st with toks := r, lastStart := t.span.offset, lastEnd := t.span.offset + t.span.len })
+  | t :: r =>
+    let st' := { st with toks := r, lastStart := t.span.offset, lastEnd := t.span.offset + t.span.len }
+    match t.res with
+    | .ok k =>
+      if isOpenBracket k then
+        let d := st.depth + 1
+        if tooDeep d then (some { t with res := .error .NestingTooDeep }, { st' with depth := d })
+        else (some t, { st' with depth := d })
+      else if isCloseBracket k then (some t, { st' with depth := st.depth - 1 })
+      else (some t, st')
+    | .error _ => (some t, st')
 
 /-- the token kind of an item, `none` for a lexical error -/
 def LTok.tok? (t : LTok) : Option Token :=
